@@ -292,7 +292,7 @@ func render(t *rapid.T, b []byte, label string) string {
 	return s
 }
 
-var nonHexKinds = []string{"byte-next-to-hex-ranges", "byte-next-to-hex-ranges", "tail-after-full-length", "tail-after-full-length", "embedded-0x-inserted", "embedded-0x-replacing", "odd-length", "rune-g", "rune-space", "rune-dash", "rune-multibyte", "rune-nul", "0x0x-prefix", "leading-space", "trailing-newline", "0x-odd", "x-only-prefix"}
+var nonHexKinds = []string{"byte-next-to-hex-ranges", "byte-next-to-hex-ranges", "tail-after-full-length", "tail-after-full-length", "embedded-0x-inserted", "embedded-0x-replacing", "odd-length", "rune-g", "rune-space", "rune-dash", "rune-multibyte", "rune-nul", "0x0x-prefix", "leading-space", "trailing-newline", "0x-odd", "x-only-prefix", "fullwidth-hex-digits", "fullwidth-hex-digits"}
 
 // spoil turns a well-formed rendering into a non-hex string by one named edit.
 func spoil(t *rapid.T, s string, label string) (string, string) {
@@ -312,6 +312,35 @@ func spoil(t *rapid.T, s string, label string) (string, string) {
 		extra := strings.Repeat("0123456789abcdefABCDEF", 2)[:2*rapid.IntRange(1, 20).Draw(t, label+"Extra")]
 		junk := rapid.SampledFrom([]string{"zz", "g", "\n ", "0g", " ", "-", "é"}).Draw(t, label+"Junk")
 		return s + extra + junk, kind
+	case "fullwidth-hex-digits":
+		// one or two hex digits replaced by their FULLWIDTH forms (U+FF10.., U+FF21.., U+FF41..): "hex digits" by the
+		// Unicode property, not by any hex decoder; the byte length stays even
+		fw := func(c byte) string {
+			switch {
+			case c >= '0' && c <= '9':
+				return string(rune(0xFF10 + int(c-'0')))
+			case c >= 'A' && c <= 'F':
+				return string(rune(0xFF21 + int(c-'A')))
+			case c >= 'a' && c <= 'f':
+				return string(rune(0xFF41 + int(c-'a')))
+			}
+			return "０"
+		}
+		if len(body) == 0 {
+			return pre + "０１", kind
+		}
+		n := 1 + rapid.IntRange(0, 1).Draw(t, label+"Two")
+		if pos+n > len(body) {
+			pos = len(body) - n
+			if pos < 0 {
+				pos, n = 0, len(body)
+			}
+		}
+		out := pre + body[:pos]
+		for i := 0; i < n; i++ {
+			out += fw(body[pos+i])
+		}
+		return out + body[pos+n:], kind
 	case "byte-next-to-hex-ranges":
 		// one character replaced by a byte that is NOT a hex digit but sits next to the digit / letter ranges or is a
 		// digit or letter with one bit changed (0x10..0x19 = '0'..'9' without bit 5, 0x40/'G'/'`'/'g', '/' and ':' ...)
@@ -385,7 +414,7 @@ type dkey struct {
 
 func TestWrappers(t *testing.T) {
 	r := ev.New(t, prop, "TestWrappers")
-	r.Rule("rapid draws a wrapper function, a validity class (valid / one bit flipped / other message / other key; address first byte over all 256 values; descriptors that make the core refuse), a hex rendering (lower/upper/mixed, each of signature and public key independently with or without 0x) or ONE non-hex edit (odd length, foreign rune at a drawn position, 0X, 0x0x, whitespace...); oracle wrapper == core on my own decoding of the strings; non-trivial = core answers true or the input is one bit from such a case, or each 0x placement; distinct by (function, prefix pattern, class)")
+	r.Rule("rapid draws a wrapper function, a validity class (valid / one bit flipped / other message / other key; address first byte over all 256 values; descriptors that make the core refuse), a hex rendering (lower/upper/mixed, each of signature and public key independently with or without 0x) or ONE non-hex edit (odd length, foreign rune at a drawn position, fullwidth forms of the hex digits, 0X, 0x0x, whitespace...); oracle wrapper == core on my own decoding of the strings; non-trivial = core answers true or the input is one bit from such a case, or each 0x placement; distinct by (function, prefix pattern, class)")
 	// pools
 	var dk []dkey
 	for i := 0; i < 3; i++ {
